@@ -58,6 +58,13 @@ __CPROVER_assigns(*enc)
 __CPROVER_ensures((RET != 0) == (VEQ(a, b, 0) && VEQ(a, b, 5)))
 __CPROVER_ensures(*enc == 2 + (size_t)a[0] + (size_t)a[5]);
 
+/* ContextInfoContainer: decode(encode(x)) == x; encoded size = 4 (height, big endian) + 1 + n1 + 1 + n2 */
+int w_ctxser_c(int32_t height, const uint8_t* a, int32_t* back_h, uint8_t* back, size_t* enc)
+__CPROVER_requires(__CPROVER_is_fresh(a, 10) && __CPROVER_is_fresh(back_h, 4) && __CPROVER_is_fresh(back, 10) && __CPROVER_is_fresh(enc, sizeof(size_t)) && a[0] <= 4 && a[5] <= 4)
+__CPROVER_assigns(*back_h, __CPROVER_object_whole(back), *enc)
+__CPROVER_ensures(RET != 0 && *back_h == height && VEQ(a, back, 0) && VEQ(a, back, 5))
+__CPROVER_ensures(*enc == 4 + 2 + (size_t)a[0] + (size_t)a[5]);
+
 /* Coin / PublicationData: decode(encode(x)) == x, estimateSize == encoded size (asserted in the wrapper), encoded size by format */
 #define TRIMLEN(v) ((int64_t)(v) < 0 ? 8 : (uint64_t)(v) < (1UL << 8) ? 1 : (uint64_t)(v) < (1UL << 16) ? 2 : (uint64_t)(v) < (1UL << 24) ? 3 : \
                     (uint64_t)(v) < (1UL << 32) ? 4 : (uint64_t)(v) < (1UL << 40) ? 5 : (uint64_t)(v) < (1UL << 48) ? 6 : (uint64_t)(v) < (1UL << 56) ? 7 : 8)
